@@ -765,6 +765,32 @@ Proof.
   - unfold proc_ok. simpl. rewrite Hp. exact I.
 Qed.
 
+Lemma wf_clean_index s : WF s -> WF (do_clean_index s).
+Proof.
+  intros Hwf. unfold do_clean_index.
+  destruct (s_proc s) as [[| | | |]|] eqn:Hp; try exact Hwf.
+  destruct (any_live (s_kids s)) eqn:Hl; try exact Hwf.
+  constructor; simpl.
+  - intros r [].
+  - apply (wf_dirs _ Hwf).
+  - apply (wf_kids _ Hwf).
+  - unfold proc_ok. simpl. rewrite Hp. exact I.
+Qed.
+
+Lemma wf_clean_dir k s : WF s -> WF (do_clean_dir k s).
+Proof.
+  intros Hwf. unfold do_clean_dir.
+  destruct (s_proc s) as [[| | | |]|] eqn:Hp; try exact Hwf.
+  destruct (any_live (s_kids s)) eqn:Hl; try exact Hwf.
+  destruct (s_rows s) as [|r0 rs] eqn:Hr; try exact Hwf.
+  constructor; simpl.
+  - rewrite Hr. intros r [].
+  - apply dirs_ok_remove, (wf_dirs _ Hwf).
+  - intros c Hc. split; [|apply (wf_kids _ Hwf c Hc)].
+    intros Hlive. rewrite (any_live_false _ Hl c Hc) in Hlive. discriminate.
+  - unfold proc_ok. simpl. rewrite Hp. exact I.
+Qed.
+
 (* ------------------------------------------------------------------ all labels *)
 
 Lemma wf_init : WF init.
@@ -799,6 +825,8 @@ Proof.
   - now apply wf_rfail.
   - now apply wf_gc_remove.
   - now apply wf_clean_all.
+  - now apply wf_clean_index.
+  - now apply wf_clean_dir.
   - now apply wf_stop.
   - now apply wf_stop.
 Qed.
